@@ -45,6 +45,30 @@ INFO = {
  'C19-m2': ('untyped-nil result target reaches v.Type() on the zero Value', 'CallResults with an untyped nil among the targets'),
  'C20-m1': ('post-tick guard weakened to ctx.Err() == context.Canceled', 'a deadline context with ticks always ready: more than one tick forwarded after expiry'),
  'C20-m2': ('count==1 fast path placed before the context check', 'count==1 with a context cancelled beforehand: a value instead of closed-and-empty'),
+ # round 2 (sub-agents were additionally told which changes already existed, to get different mechanisms)
+ 'C01-m3': ('consumer.Commit applies the buffer commit without holding the consumer mutex (snapshot, unlock, commit, re-lock, subtract)', 'a Get on the same consumer from another goroutine inside Commit: values skipped, then the position moves backwards'),
+ 'C01-m4': ("Buffer.Put adopts the caller's variadic slice when the buffer is empty", 'a producer that reuses its batch slice after Put returned: accepted values are overwritten'),
+ 'C02-m3': ("package Range hoists its per-iteration 'success' flag out of the loop", 'one value committed, then the callback panics on a later value: the in-flight value is not rolled back'),
+ 'C02-m4': ('consumer.Commit zeroes the pending offset, releases the mutex, then commits to the buffer', 'a Get by another goroutine sharing the consumer inside that window: a committed value is returned again and the next one is lost'),
+ 'C03-m3': ('Buffer.NewConsumer snapshots the offset under a read lock and registers it later under the write lock', 'a cleaner shift between snapshot and registration: the new consumer starts behind the buffer and gets an offset error under the default cleaner'),
+ 'C03-m4': ('consumer.Commit drops the consumer lock around the buffer commit and subtracts afterwards', 'a Diff from another goroutine between the buffer commit and the consumer adjustment: Diff is a batch too low'),
+ 'C04-m3': ('the cooldown timer goroutine no longer takes the buffer lock before re-broadcasting (undoes fix 30c3f5b in different words)', 'the last commit/close inside a cooldown window with the loop between its check and cond.Wait when the timer fires'),
+ 'C04-m4': ("Buffer.commit broadcasts only when the consumer's previous committed offset was the buffer head", 'a FixedBufferCleaner forced trim overtakes a consumer holding uncommitted reads, which then commits everything: the cleaner never runs again'),
+ 'C05-m3': ("getAsync's sender goroutine waits before its first check (inline loop instead of WaitCond)", 'a Put between the synchronous miss and the goroutine parking, with no later broadcast'),
+ 'C05-m4': ("WaitCond's cancel watcher uses cond.Signal instead of Broadcast", 'another waiter parked earlier on the same cond (second consumer, or the idle cleaner): the cancelled waiter is never woken'),
+ 'C06-m3': ('Send releases sendMu after the ping phase instead of after the pong phase', 'two concurrent senders and a subscriber that is slow between receiving and Wait: a fast subscriber eats its pong, receives twice'),
+ 'C07-m3': ('SubscribeContext registers the AfterFunc before subscribing', 'an already-cancelled context (with or without a Send in progress): unsubscribe runs before the subscription exists'),
+ 'C07-m4': ("the iterator's Unsubscribe is no longer deferred", 'a loop body that panics (recovered outside) or Goexit: the subscription leaks and the next Send blocks'),
+ 'C08-m3': ("positive Add validation drops 'receivers >= delta'", 'an unbalanced negative Add followed by a positive Add large enough to wrap back: no panic, wrong count'),
+ 'C08-m4': ('positive Add takes the read lock only when the state is non-zero', 'three parties: an Add between its load and its atomic add while another registration and a Send arming land in that gap'),
+ 'C09-m3': ("claim ('running = true') forgotten on the 'wait already elapsed' path", 'two or more delayed calls queued behind work that runs longer than their wait: all of them run concurrently'),
+ 'C09-m4': ("start-style work releases the successor inside resolve", 'a Start-claimed batch whose work keeps running after resolve (raw ExclusiveWork / rate limit)'),
+ 'C10-m3': ("resolve guarded by an unlocked 'item.complete' read instead of sync.Once", 'a work function whose resolution runs on another goroutine as it returns: resolved twice (send on closed channel)'),
+ 'C10-m4': ('Start escape hatch evaluated outside the validity guard', 'a Start holding a stale (deleted) next item with count 0 returns without registering: its function never runs'),
+ 'C11-m3': ('', ''), 'C11-m4': ('', ''), 'C12-m3': ('', ''), 'C12-m4': ('', ''), 'C13-m3': ('', ''), 'C13-m4': ('', ''), 'C14-m3': ('', ''), 'C14-m4': ('', ''),
+ 'C15-m3': ('', ''), 'C15-m4': ('', ''), 'C16-m3': ('', ''), 'C16-m4': ('', ''), 'C17-m3': ('', ''), 'C17-m4': ('', ''), 'C18-m3': ('', ''), 'C18-m4': ('', ''),
+ 'C19-m3': ('', ''), 'C19-m4': ('', ''), 'C20-m3': ('', ''), 'C20-m4': ('', ''),
+
 }
 
 def main():
